@@ -202,6 +202,57 @@ pub fn honest<S: MlDsa>(seed: u64, nseeds: usize, nmsgs: usize, out: &mut Out) {
     let _ = w.verify(hp_b, b"cross", b"", "pure", &sig);
 }
 
+/// C01 rare-event hunt: sign many messages natively with the attempt hook, classify each signature (many attempts,
+/// hint weight 0 / omega, first or some hint polynomial empty, response norm one below the bound) and put a few of
+/// every class through the recorded API (sign again with the same draw, verify under every key provenance).
+pub fn honest_hunt<S: MlDsa>(seed: u64, n: usize, out: &mut Out) {
+    let mut p = Prng::new(seed, 0x0180 + S::SET as u64);
+    let mut w = World::<S>::new(out);
+    let xi = p.arr32();
+    let (hp, hs) = w.keygen_seed(&xi);
+    let sk = w.sks.get(&hs).unwrap().clone();
+    let pkb = w.ser(hp);
+    let hp_rt = w.deser("pk", &pkb).unwrap();
+    let hp_der = w.derive(hs);
+    let edge = (S::GAMMA1 - S::beta() - 1) as i64;
+    let mut kept: HashMap<u32, Vec<(Vec<u8>, [u8; 32], &'static str)>> = HashMap::new();
+    for i in 0..n {
+        let m = (i as u32).to_le_bytes().to_vec();
+        let draw = p.arr32();
+        let mode = MODES[i % 4];
+        vh::trace_start();
+        let r = guarded(|| S::sign(&sk, &mut ScriptRng::new(&draw), &m, b"", mode));
+        let evs: Vec<[i64; 8]> = vh::trace_take().iter().filter(|e| e.0 == "sign_attempt").map(|e| e.1).collect();
+        let Ok(Ok(sig)) = r else { let _ = w.sign(hs, &m, b"", mode, &draw, Fault::None); continue };
+        let mut classes: Vec<u32> = vec![];
+        if evs.len() >= 24 { classes.push(0); }
+        if evs.len() > 32 { classes.push(1); }
+        if let Some(last) = evs.last() { if last[1] == edge { classes.push(2); } if last[4] == S::OMEGA as i64 { classes.push(3); } if last[4] == 0 { classes.push(4); } }
+        if let Some((_, _, h)) = S::sig_decode(&sig) {
+            let wts: Vec<i32> = h.iter().map(|q| q.iter().sum()).collect();
+            if wts[0] == 0 && wts.iter().any(|x| *x > 0) { classes.push(5); }
+            if wts[S::K - 1] == 0 && wts.iter().any(|x| *x > 0) { classes.push(6); }
+            if wts.iter().filter(|x| **x == 0).count() >= 2 { classes.push(7); }
+        } else { classes.push(8); }                       // the library's own decoder refuses an honest signature
+        // an honest signature that does not verify natively is kept whatever its class
+        let okv = guarded(|| S::verify(w.pks.get(&hp).unwrap(), &m, &sig, b"", mode)).unwrap_or(false);
+        if !okv { classes.push(9); }
+        for c in classes { let e = kept.entry(c).or_default(); if e.len() < 2 { e.push((m.clone(), draw, mode)); } }
+    }
+    let mut done: Vec<(Vec<u8>, [u8; 32])> = vec![];
+    let mut cls: Vec<u32> = kept.keys().cloned().collect();
+    cls.sort();
+    for c in cls {
+        for (m, draw, mode) in kept[&c].clone() {
+            if done.iter().any(|d| d.0 == m && d.1 == draw) { continue; }
+            done.push((m.clone(), draw));
+            let sig = w.sign(hs, &m, b"", mode, &draw, Fault::None).unwrap_or_default();
+            for h in [hp, hp_rt, hp_der] { let _ = w.verify(h, &m, b"", mode, &sig); }
+        }
+    }
+    w.out.ev(json!({"ev": "Note", "what": format!("honest hunt: {} signatures classified, {} replayed through the recorded API", n, done.len())}));
+}
+
 /// C05: every single-bit flip of sig, pk, message and context
 pub fn flips<S: MlDsa>(seed: u64, ntuples: usize, out: &mut Out) {
     let mut p = Prng::new(seed, 0x0500 + S::SET as u64);
@@ -421,6 +472,7 @@ pub fn roundtrip<S: MlDsa>(seed: u64, nrandom: usize, out: &mut Out) {
         for (lo, hi) in [(0usize, 32usize), (32, 64), (64, 128), (t0_start, S::SK_LEN)] {
             let mut b = base.clone(); let k = lo + p.below((hi - lo) as u64) as usize; b[k] ^= 1 << p.below(8); variants.push(b);
             let mut b = base.clone(); for x in b[lo..hi].iter_mut() { *x = p.below(256) as u8; } variants.push(b);
+            for fill in [0u8, 0xff] { let mut b = base.clone(); for x in b[lo..hi].iter_mut() { *x = fill; } variants.push(b); }
         }
         // strings with ONE out-of-range s1 / s2 field: they must be refused; if a decoder accepts one (and, say,
         // zeroes the polynomial) the re-serialisation rule below exposes it
@@ -533,6 +585,7 @@ pub fn run(a: &Args) {
         let mut out = Out::create(&format!("{}/api_{}_{}.ndjson", a.s("out", "/verif/work/api"), sc, set));
         match sc.as_str() {
             "honest" => { let (ns, nm) = (a.u("nseeds", 2) as usize, a.u("nmsgs", 6) as usize); for_set!(set, honest(seed, ns, nm, &mut out)) }
+            "hunt" => { let n = a.u("n", 3000) as usize; for_set!(set, honest_hunt(seed, n, &mut out)) }
             "flips" => { let n = a.u("ntuples", 1) as usize; for_set!(set, flips(seed, n, &mut out)) }
             "binding" => { let n = a.u("nbase", 6) as usize; for_set!(set, binding(seed, n, &mut out)) }
             "ctxlimit" => {
